@@ -81,6 +81,31 @@ theorem finish_seq_unchanged (s : State) (st : RunSt) (h : String) (f : Option F
     · rfl
     · split <;> rfl
 
+/-- `recordedOutcome` never touches the state, and turns an error into an error or a hit. -/
+theorem recordedOutcome_state (op : Op) (f : Option Fault) (s : State) (n : Nat) (o : Outcome) :
+    (recordedOutcome op f s n o).state = o.state := by
+  unfold recordedOutcome
+  repeat' split
+  all_goals rfl
+
+theorem recordedOutcome_why (op : Op) (f : Option Fault) (s : State) (n : Nat) (o : Outcome)
+    (h : o.resp.err.isSome = true) :
+    (recordedOutcome op f s n o).resp.err.isSome = true ∨ (recordedOutcome op f s n o).resp.hit = true := by
+  unfold recordedOutcome
+  repeat' split
+  all_goals first | exact Or.inl h | exact Or.inl rfl | exact Or.inr rfl
+
+theorem failedThenRecorded_unchanged (op : Op) (s : State) (st : RunSt) (h : String) (f : Option Fault) (e : Err) :
+    (failedThenRecorded op s st h f e).Unchanged s ∧ (failedThenRecorded op s st h f e).state.seq = st.seq ∧
+    ((failedThenRecorded op s st h f e).resp.err.isSome = true ∨ (failedThenRecorded op s st h f e).resp.hit = true) := by
+  unfold failedThenRecorded
+  split
+  · exact ⟨failedAttempt_unchanged .., failedAttempt_seq .., Or.inl (failedAttempt_isError ..)⟩
+  · refine ⟨?_, ?_, recordedOutcome_why _ _ _ _ _ (failedAttempt_isError ..)⟩
+    · show (recordedOutcome op f s (st.n + 2) (failedAttempt s st h f e)).state.db = s.db
+      rw [recordedOutcome_state]; exact failedAttempt_unchanged ..
+    · rw [recordedOutcome_state]; exact failedAttempt_seq ..
+
 theorem retry_ending (strict : Bool) (op : Op) (f : Option Fault) (cf : Bool) (s : State) (st : RunSt)
     (hst : SeqLe s.seq st.seq) :
     Ending strict s op (retry strict op f cf s st) := by
@@ -89,8 +114,9 @@ theorem retry_ending (strict : Bool) (op : Op) (f : Option Fault) (cf : Bool) (s
   · exact .unchanged rfl hst (Or.inl rfl)
   · split
     · rename_i e st1 heq
-      refine .unchanged (failedAttempt_unchanged ..) ?_ (Or.inl (failedAttempt_isError ..))
-      rw [failedAttempt_seq]
+      obtain ⟨hu, hsq, hw⟩ := failedThenRecorded_unchanged op s st1 "t2" f e
+      refine .unchanged hu ?_ (hw.elim Or.inl (fun h => Or.inr (Or.inl h)))
+      rw [hsq]
       have := run_seq op.now "t2" f (runLog strict op.kind op.ik op.ihash op.sv 2)
         { db := s.db, seq := st.seq, n := st.n + 1, trace := st.trace ++ ["root BeginTX"] }
       rw [heq] at this
@@ -99,11 +125,21 @@ theorem retry_ending (strict : Bool) (op : Op) (f : Option Fault) (cf : Bool) (s
       have hseq := run_seq op.now "t2" f (runLog strict op.kind op.ik op.ihash op.sv 2)
         { db := s.db, seq := st.seq, n := st.n + 1, trace := st.trace ++ ["root BeginTX"] }
       rw [heq] at hseq
+      simp only
       rcases finish_cases s st1 "t2" f cf op.dry log with h | h
-      · refine .unchanged h.1 ?_ (h.2.elim Or.inl (fun d => Or.inr (Or.inr d)))
-        rw [finish_seq_unchanged _ _ _ _ _ _ _ h.1]
-        exact SeqLe.trans hst hseq
-      · exact .committed { db := s.db, seq := st.seq, n := st.n + 1, trace := st.trace ++ ["root BeginTX"] }
+      · have hsq := finish_seq_unchanged _ _ _ _ _ _ _ h.1
+        split
+        · rename_i herr
+          refine .unchanged ?_ ?_ ((recordedOutcome_why _ _ _ _ _ herr).elim Or.inl (fun x => Or.inr (Or.inl x)))
+          · show (recordedOutcome op f s (st1.n + 2) (finish s st1 "t2" f cf op.dry log)).state.db = s.db
+            rw [recordedOutcome_state]; exact h.1
+          · rw [recordedOutcome_state, hsq]; exact SeqLe.trans hst hseq
+        · refine .unchanged h.1 ?_ (h.2.elim Or.inl (fun d => Or.inr (Or.inr d)))
+          rw [hsq]; exact SeqLe.trans hst hseq
+      · have hnoerr : ¬ ((finish s st1 "t2" f cf op.dry log).resp.err.isSome = true) := by
+          rw [h.2.2]; exact Bool.false_ne_true
+        rw [if_neg hnoerr]
+        exact .committed { db := s.db, seq := st.seq, n := st.n + 1, trace := st.trace ++ ["root BeginTX"] }
           st1 log "t2" f 2 h.1 rfl hst heq h.2
 
 /-- Every operation, with or without an injected fault, either leaves the
@@ -137,8 +173,9 @@ theorem forgeLog_ending (strict : Bool) (op : Op) (f : Option Fault) (cf : Bool)
         rw [heq2] at hseq
         split
         · exact retry_ending strict op f cf s _ (SeqLe.trans h1 hseq)
-        · refine .unchanged (failedAttempt_unchanged ..) ?_ (Or.inl (failedAttempt_isError ..))
-          rw [failedAttempt_seq]; exact SeqLe.trans h1 hseq
+        · obtain ⟨hu, hsq, hw⟩ := failedThenRecorded_unchanged op s st2 "t1" f e
+          refine .unchanged hu ?_ (hw.elim Or.inl (fun h => Or.inr (Or.inl h)))
+          rw [hsq]; exact SeqLe.trans h1 hseq
       · rename_i log st2 heq2
         have hseq := run_seq op.now "t1" f (runLog strict op.kind op.ik op.ihash op.sv 1) st1
         rw [heq2] at hseq
